@@ -53,6 +53,7 @@ OPS_REQUIRED = ["sort_tree", "get_subtree", "to_subtree", "cut_tree", "redirect_
                 "RadiusReseter", "Transforms"]
 REQUIRED = ["contract_evals_" + o for o in OPS_REQUIRED] + [
     "compositions_compared_with_their_members", "steps_compared_under_custom_column_names",
+    "big_branched_trees",
     "steps_executed", "probe_output_poison", "probe_input_poison", "roundtrip_steps",
     "identity_transform_steps", "same_tree_in_two_argument_positions", "size_sweep_cases",
     "pipelines_starting_from_a_branch_tree", "deep_pruning_cases",
@@ -408,6 +409,8 @@ def execute(ctx, case):
 
 
 def run(ctx):
+    from swcgeom.core import Tree, cat_tree, get_subtree, redirect_tree, sort_tree
+
     rec = contracts.install()
     rng = ctx.rng
     n_pipes = ctx.scale(700, 60000)
@@ -447,7 +450,6 @@ def run(ctx):
             ctx.count("deep_pruning_cases")
             execute(ctx, case)
     if ctx.shard == 0:  # one deep chain through the stack-based operations
-        from swcgeom.core import Tree, get_subtree, redirect_tree, sort_tree
 
         n_deep = 20000 if ctx.quick else 100000
         case = {"deep_chain": n_deep}
@@ -460,6 +462,33 @@ def run(ctx):
                     ctx.violation("malformed-result", f"deep chain: {wf}", case)
         except RecursionError as e:
             ctx.violation("recursion-limit", f"deep chain of {n_deep}: {e}", case)
+    if ctx.shard == 1 % ctx.nshards:
+        # one big *branched* tree with permuted numbering (products of ids and the node count pass
+        # 2^31 beyond 46 340 nodes) through the renumbering operations
+        n_big = (50000, 70000, 100000)[ctx.seed % 3] if ctx.quick else 100000
+        rc = {"shape": "recursive", "n": n_big, "numbering": "perm", "geom": "growth",
+              "types": "soma", "extras": 1, "seed": 70 + ctx.seed}
+        case = {"big_branched": rc}
+        ctx.case(case, klass="big-branched")
+        ctx.count("big_branched_trees")
+        try:
+            t = G.build(G.spec_from_recipe(rc), with_tag=False)
+            small = Tree(3, x=np.array([1, 2, 3], dtype=np.float32))
+            fp = contracts.fingerprint(t)
+            for label, o in (("sort_tree", sort_tree(t)),
+                             ("redirect_tree", redirect_tree(t, n_big - 7)),
+                             ("cat_tree", cat_tree(small, t, 1, 0))):
+                wf = topo.well_formed(o.id(), o.pid())
+                if wf or len(o.id()) < n_big:
+                    ctx.violation("malformed-result", f"{label} of a {n_big}-node branched tree: "
+                                                      f"{wf or 'nodes lost'}", case)
+                    break
+            if contracts.fingerprint(t) != fp:
+                ctx.violation("input-mutated", f"an operation on a {n_big}-node tree modified it",
+                              case)
+        except Exception as e:
+            ctx.violation("op-raised", f"{n_big}-node branched tree: {type(e).__name__}: "
+                                       f"{str(e)[:200]}", case)
     for name, v in rec.evals.items():
         ctx.count("contract_evals_" + name, v)
     ctx.count("compositions_compared_with_their_members", COMPOSED[0])
@@ -469,6 +498,6 @@ def run(ctx):
 
 def replay(ctx, case):
     ctx.case(case)
-    if "deep_chain" in case:
+    if "deep_chain" in case or "big_branched" in case:
         return
     execute(ctx, case)
